@@ -210,7 +210,7 @@ class ConcCtx:
 
     def deriv(self, fn, x):
         x = float(x)
-        h = 1e-3 * max(1.0, abs(x)) * 0.05
+        h = 2e-3 * abs(x) if abs(x) > 1e-9 else 1e-6
         f = lambda t: float(fn(t))
         # 5-point stencil
         return (-f(x + 2 * h) + 8 * f(x + h) - 8 * f(x - h) + f(x - 2 * h)) / (12 * h)
@@ -402,18 +402,114 @@ def model_env(model, enc, inputs):
     return env
 
 
+def guarded_check(s, timeout_ms):
+    """s.check() with a hard wall-clock guard: z3's soft timeout is not honoured inside some
+    nonlinear procedures, so a timer thread interrupts the context; the verdict is then unknown"""
+    import threading
+    fired = []
+
+    def fire():
+        fired.append(1)
+        try:
+            s.ctx.interrupt()
+        except Exception:
+            pass
+    tm = threading.Timer(timeout_ms / 1000.0 + 2.0, fire)
+    tm.daemon = True
+    tm.start()
+    try:
+        r = str(s.check())
+    except z3.Z3Exception:
+        r = 'unknown'
+    finally:
+        tm.cancel()
+    if fired:
+        r = 'unknown'
+    return r
+
+
+def forked_check(s, timeout_ms, model_fn=None):
+    """decide s in a forked child that can be killed: z3's nonlinear procedures sometimes ignore
+    both the soft timeout and Z3_interrupt.  Returns (verdict, env-or-None)."""
+    import os, select, json
+    r, w = os.pipe()
+    pid = os.fork()
+    if pid == 0:
+        try:
+            os.close(r)
+            try:
+                res = str(s.check())
+            except BaseException:
+                res = 'unknown'
+            payload = {'r': res}
+            if res == 'sat' and model_fn is not None:
+                try:
+                    payload['env'] = model_fn(s.model())
+                except BaseException as e:
+                    payload['env_error'] = repr(e)
+            os.write(w, json.dumps(payload).encode())
+        finally:
+            os._exit(0)
+    os.close(w)
+    deadline = time.time() + timeout_ms / 1000.0 + 3.0
+    data = b''
+    verdict, env = 'unknown', None
+    try:
+        while True:
+            left = deadline - time.time()
+            if left <= 0:
+                break
+            rl, _, _ = select.select([r], [], [], left)
+            if not rl:
+                break
+            chunk = os.read(r, 65536)
+            if not chunk:
+                break
+            data += chunk
+        if data:
+            try:
+                payload = json.loads(data.decode())
+                verdict = payload.get('r', 'unknown')
+                env = payload.get('env')
+                if verdict == 'sat' and model_fn is not None and env is None:
+                    verdict = 'unknown'
+            except ValueError:
+                verdict = 'unknown'
+    finally:
+        os.close(r)
+        try:
+            os.kill(pid, 9)
+        except OSError:
+            pass
+        try:
+            os.waitpid(pid, 0)
+        except OSError:
+            pass
+    return verdict, env
+
+
 class Prover:
     def __init__(self, timeout_ms=30000):
         self.timeout = timeout_ms
         self.queries = 0
         self.solver_time = 0.0
         self.samples = []
+        self.slow = []
+        self.client = None
+        self.cur_inputs = None
 
-    def _check(self, s):
+    def _check(self, s, what='?', model_fn=None):
         t = time.time()
-        r = str(s.check())
+        if self.client is None:
+            from .solver_server import SolverClient
+            self.client = SolverClient()
+        r, env = self.client.ask(s.to_smt2(), self.timeout, self.cur_inputs if model_fn is not None else None)
+        self.last_env = env
         self.queries += 1
-        self.solver_time += time.time() - t
+        dt = time.time() - t
+        self.solver_time += dt
+        if dt > 5:
+            self.slow.append('%s %.1fs %s' % (what, dt, r))
         return r
 
     def prove_path(self, pr):
@@ -422,7 +518,7 @@ class Prover:
         if not pr.goals and not pr.exc:
             return out, 'no-goals'
         roots = list(pr.assumptions) + list(pr.pc) + [g.cond for g in pr.goals]
-        enc = Encoder(roots, group=True)
+        enc = Encoder(roots, group=True, inputs=pr.inputs)
         zA = [enc.boolean(a) for a in pr.assumptions]
         zP = [enc.boolean(c) for c in pr.pc]
         zG = [enc.boolean(g.cond) for g in pr.goals]
@@ -430,8 +526,10 @@ class Prover:
         s.set('timeout', self.timeout)
         for z in zA + zP + enc.cons:
             s.add(z)
+        mf = True
+        self.cur_inputs = {k: [v[0], v[1], v[2]] for k, v in pr.inputs.items()}
         # reachability twin
-        reach = self._check(s)
+        reach = self._check(s, 'reachability')
         if reach == 'unsat':
             return [dict(label=g.label, verdict='vacuous') for g in pr.goals], 'infeasible'
         # definedness / proportionality side obligations
@@ -446,25 +544,25 @@ class Prover:
                     sides.append((z, txt))
             s.push()
             s.add(z3.Or(*[z3.Not(z) for z, _ in sides]))
-            r = self._check(s)
+            r = self._check(s, 'all %d side obligations' % len(sides))
             s.pop()
             if r != 'unsat':
                 for z, txt in sides:
                     s.push()
                     s.add(z3.Not(z))
-                    r1 = self._check(s)
+                    r1 = self._check(s, 'side: ' + txt, mf)
                     if r1 != 'unsat':
-                        env = model_env(s.model(), enc, pr.inputs) if r1 == 'sat' else None
+                        env = self.last_env if r1 == 'sat' else None
                         side_bad.append((txt, r1, env))
                     s.pop()
         for g, zg in zip(pr.goals, zG):
             s.push()
             s.add(z3.Not(zg))
             t_g = time.time()
-            r = self._check(s)
+            r = self._check(s, 'goal: ' + g.label, mf)
             rec = dict(label=g.label, verdict=r)
             if r == 'sat':
-                rec['env'] = model_env(s.model(), enc, pr.inputs)
+                rec['env'] = self.last_env
             elif r == 'unknown':
                 # second attempt: fresh non-incremental solver (full preprocessing, nlsat)
                 s2 = z3.Solver()
@@ -472,10 +570,10 @@ class Prover:
                 for z in zA + zP + enc.cons:
                     s2.add(z)
                 s2.add(z3.Not(zg))
-                r2 = self._check(s2)
+                r2 = self._check(s2, 'goal(fresh solver): ' + g.label, mf)
                 rec['verdict'] = r2
                 if r2 == 'sat':
-                    rec['env'] = model_env(s2.model(), enc, pr.inputs)
+                    rec['env'] = self.last_env
             if len(self.samples) < 3 and rec['verdict'] == 'unsat':
                 try:
                     txt = s.to_smt2()
